@@ -188,16 +188,16 @@ def check(run):
     #     only writes after the previous flush are batch calls
     import os, shutil, tempfile as _tf
     crash_cases, crash_bad = 0, 0
-    for k in range(12 if quick else 120):
+    for k in range(16 if quick else 120):
         depth = rng.choice([3, 4, 5])
         cap = 1 << depth
         loc = _tf.mkdtemp(prefix="zkcrash-", dir=os.environ.get("TMPDIR"))
         shutil.rmtree(loc)
         pre = [treegen.gen_mutator(rng, cap, ["set", "app", "range"]) for _ in range(rng.randint(1, 4))]
-        last = rng.choice([f"batch 0x0 - {hex(rng.randrange(cap // 2))},{hex(rng.randrange(cap // 2, cap))}",           # removal-only batch (two indices)
+        last = (lambda opts: opts[k % len(opts)])([f"batch 0x0 - {hex(rng.randrange(cap // 2))},{hex(rng.randrange(cap // 2, cap))}",      # every kind of last write in turn           # removal-only batch (two indices)
                            f"batch 0x0 - {hex(rng.randrange(cap))}", f"batch {hex(rng.randrange(cap))} {hex(rng.randint(1, 99))} -",
                            f"set {hex(rng.randrange(cap))} {hex(rng.randint(1, 99))}", f"del {hex(rng.randrange(cap))}", f"app {hex(rng.randint(1, 99))}",
-                           f"range {hex(rng.randrange(cap))} {hex(rng.randint(1, 99))},{hex(rng.randint(1, 99))}", "meta set c0ffee"])
+                           f"range {hex(rng.randrange(cap - 1))} {hex(rng.randint(1, 99))},{hex(rng.randint(1, 99))}", "meta set c0ffee"])
         if last.startswith("batch 0x0 - ") and "," in last:
             a_, b_ = sorted(int(x, 16) for x in last.split(" ")[3].split(","))
             last = f"batch 0x0 - {hex(a_)},{hex(a_ + 1)}"        # contiguous pair: outside the effect of the open batch finding
